@@ -1,7 +1,8 @@
 (* Proofs/DokGetitemP.v — DOK.__getitem__ (Model/DokGetitem.v): the delegation to COO for every key
-   that is not made of index sequences only (through agent c05's COO.from_iter / DOK.from_coo
-   theorems and the COO indexing theorems), and _fancy_getitem on the keys it handles like NumPy
-   (one in-range non-negative integer sequence per axis, one length). *)
+   that is not a non-empty tuple of index sequences (through agent c05's COO.from_iter / DOK.from_coo
+   theorems and the COO indexing theorems; the empty key and 0-d DOKs included since fixes e6d97fc /
+   e0a1c30), and _fancy_key + _fancy_getitem (fix b72190a) on keys made of one integer sequence per axis
+   (negative entries wrap, out-of-bounds entries raise IndexError), one length. *)
 From Coq Require Import ZArith List Bool Lia ZifyBool Sorting.Sorted Sorting.Permutation.
 From Verif Require Import Py PySlice Shape COO COOP GCXS Convert ConvertL ConvertM ConvertG ConvertP NpIndex CooIndex
      CooIndexMaskP CooIndexNormP CooIndexP CooIndexArrP CooIndexMultiP DokGetitem.
@@ -38,7 +39,7 @@ Section DokP.
   Variable add : V -> V -> V.
 
   Definition dok_ok (sh : shape) (items : list (idx * V)) : Prop :=
-    NoDup (map fst items) /\ Forall (in_range sh) (map fst items) /\ (sh <> [] \/ items = []).
+    NoDup (map fst items) /\ Forall (in_range sh) (map fst items).
 
   Lemma dup_vals_nodup' (es : list (idx * V)) ix :
     NoDup (map fst es) -> dup_vals V es ix = match lookup es ix with Some v => [v] | None => [] end.
@@ -59,7 +60,7 @@ Section DokP.
     exists c, from_iter_pairs veqb add sh items fill = Ok c /\ canonical V c /\ c_shape c = sh /\ c_fill c = fill
               /\ forall ix, den c ix = den (dok_as_coo sh items fill) ix.
   Proof.
-    intros [Hnd [Hr Hsh]].
+    intros [Hnd Hr].
     pose proof (coo_make_den_proof V veqb add sh (map fst items) (map snd items) fill Hr ltac:(rewrite !map_length; reflexivity)) as H.
     cbv zeta in H. destruct H as [Hc [Hs [Hf Hden]]].
     exists (Convert.coo_make veqb add false true false sh (map fst items) (map snd items) fill).
@@ -69,8 +70,7 @@ Section DokP.
       replace (forallb (in_rangeb sh) (map fst items)) with true; [reflexivity|].
       symmetry. apply forallb_forall. intros x Hx. apply in_rangeb_spec. rewrite Forall_forall in Hr. auto. }
     split.
-    { unfold from_iter_pairs. destruct sh as [|d t]; [|destruct items; exact Hmk].
-      destruct Hsh as [Hsh|Hsh]; [congruence|]. subst items. exact Hmk. }
+    { unfold from_iter_pairs. exact Hmk. }
     split; [exact Hc|]. split; [exact Hs|]. split; [exact Hf|].
     intros ix. destruct (in_rangeb sh ix) eqn:Eir.
     - apply in_rangeb_spec in Eir. rewrite (Hden ix Eir). rewrite combine_fst_snd.
@@ -84,12 +84,9 @@ Section DokP.
       + intros Hin. destruct Hc as [Hcr _]. rewrite Forall_forall in Hcr. apply Hnr. rewrite <- Hs. apply Hcr. exact Hin.
   Qed.
 
-  Lemma all_arrays_none_not_nil ix : all_arrays_of ix = None -> ix <> [].
-  Proof. intros H E. subst. discriminate. Qed.
-
   Theorem dok_getitem_den_proof (kf : nat -> nat) sh items fill (ix : index) :
     dok_ok sh items -> shape_okb sh = true -> no_zero_step ix = true -> coo_ix_ok sh ix ->
-    all_arrays_of ix = None ->
+    fancy_key ix = false ->
     match np_index sh ix with
     | Raise e => dok_getitem V veqb add kf sh items fill ix = Raise e /\ e = IndexError
     | Ok (sh', g) =>
@@ -119,28 +116,58 @@ Section DokP.
   Qed.
 End DokP.
 
-(* ================================================================ _fancy_getitem *)
+(* ================================================================ _fancy_key + _fancy_getitem *)
 Section Fancy.
   Variable V : Type.
   Variable veqb : V -> V -> bool.
   Variable add : V -> V -> V.
 
-  (* domain clause D24: one index sequence per axis, non-empty key, one length, every entry in [0, extent) *)
-  Fixpoint seqs_in_range (sh : shape) (ls : list (list Z)) : Prop :=
+  (* one index sequence per axis, every entry within [-extent, extent) *)
+  Fixpoint seqs_in_bounds (sh : shape) (ls : list (list Z)) : Prop :=
     match sh, ls with
     | [], [] => True
-    | d :: sh', l :: ls' => (forall v, In v l -> 0 <= v < d) /\ seqs_in_range sh' ls'
+    | d :: sh', l :: ls' => (forall v, In v l -> - d <= v < d) /\ seqs_in_bounds sh' ls'
     | _, _ => False
     end.
 
-  Definition fancy_ok (sh : shape) (ls : list (list Z)) (n : nat) : Prop :=
-    ls <> [] /\ seqs_in_range sh ls /\ forall l, In l ls -> length l = n.
+  Fixpoint wrap_all (sh : shape) (ls : list (list Z)) : list (list Z) :=
+    match sh, ls with
+    | d :: sh', l :: ls' => map (wrap d) l :: wrap_all sh' ls'
+    | _, _ => []
+    end.
 
-  Lemma seqs_length sh : forall ls, seqs_in_range sh ls -> length ls = length sh.
+  Definition fancy_ok (sh : shape) (ls : list (list Z)) (n : nat) : Prop :=
+    ls <> [] /\ seqs_in_bounds sh ls /\ forall l, In l ls -> length l = n.
+
+  Lemma seqs_length sh : forall ls, seqs_in_bounds sh ls -> length ls = length sh.
   Proof. induction sh as [|d sh IH]; intros [|l ls] H; simpl in *; try tauto. f_equal. apply IH. tauto. Qed.
 
-  Lemma all_arrays_of_map ls : all_arrays_of (map IArr ls) = Some ls.
-  Proof. induction ls as [|l r IH]; [reflexivity|]. cbn [map all_arrays_of arr_of]. rewrite IH. reflexivity. Qed.
+  Lemma fancy_key_map ls : ls <> [] -> fancy_key (map IArr ls) = true.
+  Proof.
+    intros H. destruct ls as [|l r]; [congruence|]. cbn [map fancy_key]. apply forallb_forall.
+    intros e He. change (IArr l :: map IArr r) with (map IArr (l :: r)) in He. apply in_map_iff in He. destruct He as [x [<- _]]. reflexivity.
+  Qed.
+
+  Lemma norm_all_arrays sh : forall ls, length ls = length sh -> norm_all (map IArr ls) sh = map NArr (wrap_all sh ls).
+  Proof.
+    induction sh as [|d sh IH]; intros [|l ls] H; simpl in H; try discriminate; [reflexivity|].
+    cbn [map norm_all nentry_spec wrap_all]. rewrite IH by lia. reflexivity.
+  Qed.
+
+  Lemma narr_lists_map W : narr_lists (map NArr W) = W.
+  Proof. induction W as [|l r IH]; [reflexivity|]. cbn [map narr_lists flat_map app] in *. unfold narr_lists in IH. rewrite IH. reflexivity. Qed.
+
+  Lemma to_r_map W : map to_r (map NArr W) = map RAdv W.
+  Proof. rewrite map_map. reflexivity. Qed.
+
+  Lemma wrap_all_spec sh : forall ls, seqs_in_bounds sh ls ->
+    length (wrap_all sh ls) = length ls /\ (forall n, (forall l, In l ls -> length l = n) -> forall l, In l (wrap_all sh ls) -> length l = n).
+  Proof.
+    induction sh as [|d sh IH]; intros [|l ls] H; simpl in H; try contradiction; [split; [reflexivity|intros n _ l0 []]|].
+    destruct H as [_ H]. destruct (IH ls H) as [H1 H2]. cbn [wrap_all length]. split; [lia|].
+    intros n Hn l0 [<-|Hl0]; [rewrite map_length; apply Hn; left; reflexivity|].
+    apply (H2 n); [intros l' Hl'; apply Hn; right; exact Hl'|exact Hl0].
+  Qed.
 
   Lemma dict_get_In (items : list (idx * V)) k v :
     NoDup (map fst items) -> (dict_get V items k = Some v <-> In (k, v) items).
@@ -161,17 +188,6 @@ Section Fancy.
     - apply H. reflexivity.
     - pose proof (proj1 (H x) eq_refl). discriminate.
     - pose proof (proj2 (H y) eq_refl). discriminate.
-  Qed.
-
-  (* NumPy on a key made of one in-range index sequence per axis *)
-  Lemma resolve_arrays sh : forall ls, seqs_in_range sh ls -> resolve sh (map IArr ls) = Ok (map RAdv ls).
-  Proof.
-    induction sh as [|d sh IH]; intros [|l ls] H; simpl in H; try contradiction; [reflexivity|]. destruct H as [Hl H].
-    cbn [map resolve resolve1].
-    assert (Hb : forallb (in_bounds d) l = true).
-    { apply forallb_forall. intros v Hv. specialize (Hl v Hv). unfold in_bounds. lia. }
-    rewrite Hb. cbn [bind]. rewrite (IH ls H). cbn [bind]. f_equal. f_equal. f_equal.
-    apply map_wrap_nonneg. apply Forall_forall. intros v Hv. specialize (Hl v Hv). lia.
   Qed.
 
   Lemma out_shape_later ls : out_shape_aux true (map RAdv ls) = [].
@@ -196,41 +212,42 @@ Section Fancy.
     destruct (dict_get V items (zip_key ls i)); reflexivity.
   Qed.
 
-  Theorem dok_fancy_getitem_den_proof (kf : nat -> nat) sh items fill (ls : list (list Z)) (n : nat) :
-    dok_ok V sh items -> fancy_ok sh ls n ->
-    exists g it',
-      np_index sh (map IArr ls) = Ok ([Z.of_nat n], g)
-      /\ dok_getitem V veqb add kf sh items fill (map IArr ls) = Ok (DArr [Z.of_nat n] it' fill)
+  Lemma bool_ok_arrays : forall ls sh, bool_ok (map IArr ls) sh = true.
+  Proof. induction ls as [|l r IH]; intros sh; [reflexivity|]. destruct sh as [|d sh']; [reflexivity|]. cbn [map bool_ok]. apply IH. Qed.
+
+  Lemma resolve_arrays_ok : forall sh ls, seqs_in_bounds sh ls -> exists rs, resolve sh (map IArr ls) = Ok rs.
+  Proof.
+    induction sh as [|d sh IH]; intros [|l ls] Hin; simpl in Hin; try contradiction; [eexists; reflexivity|].
+    destruct Hin as [Hb Hin]. destruct (IH ls Hin) as [rs Hrs]. cbn [map resolve resolve1].
+    assert (Hb' : forallb (in_bounds d) l = true).
+    { apply forallb_forall. intros v Hv. specialize (Hb v Hv). unfold in_bounds. lia. }
+    rewrite Hb'. cbn [bind]. rewrite Hrs. cbn [bind]. eexists. reflexivity.
+  Qed.
+
+  (* _fancy_getitem on (already wrapped) sequences W of one length n *)
+  Lemma fancy_core sh (items : list (idx * V)) fill (W : list (list Z)) (n : nat) :
+    NoDup (map fst items) -> W <> [] -> (forall l, In l W -> length l = n) ->
+    exists it',
+      dok_fancy V items fill W = Ok (DArr [Z.of_nat n] it' fill)
+      /\ out_shape (map RAdv W) = [Z.of_nat n]
       /\ NoDup (map fst it') /\ Forall (in_range [Z.of_nat n]) (map fst it')
       /\ forall j, in_range [Z.of_nat n] j ->
-           den (dok_as_coo [Z.of_nat n] it' fill) j = den (dok_as_coo sh items fill) (g j).
+           den (dok_as_coo [Z.of_nat n] it' fill) j = den (dok_as_coo sh items fill) (src_of (map RAdv W) j).
   Proof.
-    intros [Hnd [Hr Hsh]] [Hne [Hin Hlen]].
-    pose proof (seqs_length sh ls Hin) as Hl.
-    destruct ls as [|l0 lr] eqn:Els; [congruence|]. rewrite <- Els in *.
-    assert (Hn0 : length l0 = n) by (apply Hlen; rewrite Els; left; reflexivity).
-    (* NumPy's side *)
-    destruct (countb_arrays ls) as [Hce Hcc].
-    assert (Hnp : np_index sh (map IArr ls) = Ok ([Z.of_nat n], src_of (map RAdv ls))).
-    { unfold np_index, expand. rewrite Hce, Hcc, Hl, Z.sub_diag. cbn [Z.ltb Z.compare bind repeat Z.to_nat].
-      replace (1 <? 0) with false by reflexivity. replace (0 <? 0) with false by reflexivity. cbn [bind].
-      rewrite app_nil_r, (resolve_arrays sh ls Hin). cbn [bind].
-      rewrite (broadcast_same (map RAdv ls) n).
-      2: { intros l Hl'. apply in_map_iff in Hl'. destruct Hl' as [l' [E Hl']]. inversion E; subst. apply Hlen. exact Hl'. }
-      cbn [bind]. rewrite Els. cbn [map]. unfold out_shape. cbn [out_shape_aux]. rewrite out_shape_later, Hn0. reflexivity. }
-    eexists. eexists. split; [exact Hnp|].
-    unfold dok_getitem. rewrite all_arrays_of_map. unfold dok_fancy. rewrite Hl, Nat.eqb_refl. cbn [negb].
-    rewrite Els. rewrite <- Els.
-    assert (Hall : forallb (fun l => (length l =? length l0)%nat) ls = true).
+    intros Hnd Hne Hlen. destruct W as [|l0 lr] eqn:EW; [congruence|]. rewrite <- EW in *.
+    assert (Hn0 : length l0 = n) by (apply Hlen; rewrite EW; left; reflexivity).
+    unfold dok_fancy. rewrite EW. rewrite <- EW.
+    assert (Hall : forallb (fun l => (length l =? length l0)%nat) W = true).
     { apply forallb_forall. intros l Hl'. rewrite (Hlen l Hl'), Hn0. apply Nat.eqb_refl. }
-    rewrite Hall. cbn [negb]. rewrite Hn0. split; [reflexivity|].
+    rewrite Hall. cbn [negb]. rewrite Hn0. eexists. split; [reflexivity|].
+    split. { rewrite EW. cbn [map]. unfold out_shape. cbn [out_shape_aux]. rewrite out_shape_later, Hn0. reflexivity. }
     match goal with |- NoDup (map fst ?t) /\ _ => set (it' := t) end.
-    assert (Hit_in : forall k v, In (k, v) it' <-> exists i, (i < n)%nat /\ k = [Z.of_nat i] /\ dict_get V items (zip_key ls i) = Some v).
+    assert (Hit_in : forall k v, In (k, v) it' <-> exists i, (i < n)%nat /\ k = [Z.of_nat i] /\ dict_get V items (zip_key W i) = Some v).
     { intros k v. unfold it'. rewrite in_flat_map. split.
-      - intros [i [Hi H]]. apply in_seq0 in Hi. destruct (dict_get V items (zip_key ls i)) as [w|] eqn:E; [|destruct H].
+      - intros [i [Hi H]]. apply in_seq0 in Hi. destruct (dict_get V items (zip_key W i)) as [w|] eqn:E; [|destruct H].
         destruct H as [H|[]]. inversion H; subst. exists i. auto.
       - intros [i [Hi [-> E]]]. exists i. split; [apply in_seq0; exact Hi|]. rewrite E. left. reflexivity. }
-    assert (Hkeys : map fst it' = map (fun i => [Z.of_nat i]) (filter (fun i => match dict_get V items (zip_key ls i) with Some _ => true | None => false end) (seq 0 n))).
+    assert (Hkeys : map fst it' = map (fun i => [Z.of_nat i]) (filter (fun i => match dict_get V items (zip_key W i) with Some _ => true | None => false end) (seq 0 n))).
     { unfold it'. apply fancy_keys. }
     assert (Hnd' : NoDup (map fst it')).
     { rewrite Hkeys. apply FinFun.Injective_map_NoDup; [|apply NoDup_filter, seq_NoDup]. intros a b H. inversion H. lia. }
@@ -239,58 +256,86 @@ Section Fancy.
     { apply Forall_forall. intros k Hk. apply in_map_iff in Hk. destruct Hk as [[k' v] [<- Hk]]. apply Hit_in in Hk.
       destruct Hk as [i [Hi [-> _]]]. simpl. lia. }
     intros j Hj. destruct j as [|q [|? ?]]; simpl in Hj; try tauto. destruct Hj as [Hq _].
-    assert (Hsrc : src_of (map RAdv ls) [q] = zip_key ls (Z.to_nat q)).
-    { rewrite Els. unfold src_of. cbn [map src_aux hd tl]. rewrite src_later. unfold zip_key. cbn [map]. reflexivity. }
+    assert (Hsrc : src_of (map RAdv W) [q] = zip_key W (Z.to_nat q)).
+    { rewrite EW. unfold src_of. cbn [map src_aux hd tl]. rewrite src_later. unfold zip_key. cbn [map]. reflexivity. }
     rewrite Hsrc. unfold den. cbn [c_fill dok_as_coo].
     unfold entries, dok_as_coo. cbn [c_coords c_data]. rewrite !combine_fst_snd.
-    assert (Elook : lookup it' [q] = lookup items (zip_key ls (Z.to_nat q))); [|rewrite Elook; reflexivity].
+    assert (Elook : lookup it' [q] = lookup items (zip_key W (Z.to_nat q))); [|rewrite Elook; reflexivity].
     apply option_ext. intros v.
     rewrite (lookup_In V it' [q] v Hnd'), (lookup_In V items _ v Hnd), Hit_in, <- (dict_get_In items _ v Hnd). split.
     - intros [i [Hi [E H]]]. inversion E. subst q. rewrite Nat2Z.id. exact H.
     - intros H. exists (Z.to_nat q). split; [lia|]. split; [rewrite Z2Nat.id by lia; reflexivity|exact H].
   Qed.
+
+  Theorem dok_fancy_getitem_den_proof (kf : nat -> nat) sh items fill (ls : list (list Z)) (n : nat) :
+    dok_ok V sh items -> shape_okb sh = true -> fancy_ok sh ls n ->
+    exists g it',
+      np_index sh (map IArr ls) = Ok ([Z.of_nat n], g)
+      /\ dok_getitem V veqb add kf sh items fill (map IArr ls) = Ok (DArr [Z.of_nat n] it' fill)
+      /\ NoDup (map fst it') /\ Forall (in_range [Z.of_nat n]) (map fst it')
+      /\ forall j, in_range [Z.of_nat n] j ->
+           den (dok_as_coo [Z.of_nat n] it' fill) j = den (dok_as_coo sh items fill) (g j).
+  Proof.
+    intros [Hnd Hr] Hshb [Hne [Hin Hlen]].
+    pose proof (seqs_length sh ls Hin) as Hl.
+    set (ix := map IArr ls). set (W := wrap_all sh ls).
+    destruct (wrap_all_spec sh ls Hin) as [HWl HWn]. fold W in HWl, HWn.
+    assert (HWne : W <> []) by (intros E; rewrite E in HWl; destruct ls; [congruence|discriminate]).
+    (* normalisation and NumPy's resolution of the key *)
+    assert (Hz : no_zero_step ix = true).
+    { apply forallb_forall. intros e He. unfold ix in He. apply in_map_iff in He. destruct He as [x [<- _]]. reflexivity. }
+    destruct (countb_arrays ls) as [Hce Hcc].
+    assert (Eex : expand (Z.of_nat (length sh)) ix = Ok ix).
+    { unfold expand, ix. rewrite Hce, Hcc, Hl, Z.sub_diag. replace (1 <? 0) with false by reflexivity. replace (0 <? 0) with false by reflexivity.
+      cbn [Z.to_nat repeat]. rewrite app_nil_r. reflexivity. }
+    assert (Hd : d29_clause sh ix = true) by (unfold d29_clause; rewrite Eex; apply bool_ok_arrays).
+    destruct (normalize_link sh ix Hshb Hz Hd) as [[ex [E [Hf [Hao [Hn Hres]]]]]|[Hn Hres]].
+    2: { exfalso. unfold resolve_all in Hres. rewrite Eex in Hres. cbn [bind] in Hres.
+         destruct (resolve_arrays_ok sh ls Hin) as [rs Hrs]. unfold ix in Hres. rewrite Hrs in Hres. discriminate. }
+    rewrite Eex in E. inversion E; subst ex. clear E.
+    unfold ix in Hn, Hres. rewrite (norm_all_arrays sh ls Hl) in Hn, Hres. fold W ix in Hn, Hres. rewrite to_r_map in Hres.
+    destruct (fancy_core sh items fill W n Hnd HWne (HWn n Hlen)) as [it' [Hf' [Hos [H1 [H2 H3]]]]].
+    exists (src_of (map RAdv W)), it'. split.
+    { rewrite np_index_eq, Hres. cbn [bind]. rewrite (broadcast_same (map RAdv W) n).
+      - cbn [bind]. rewrite Hos. reflexivity.
+      - intros l Hl'. apply in_map_iff in Hl'. destruct Hl' as [l' [E Hl']]. inversion E; subst. apply (HWn n Hlen). exact Hl'. }
+    split.
+    { unfold dok_getitem. fold ix. unfold ix at 1. rewrite (fancy_key_map ls Hne). unfold ix. rewrite map_length, Hl, Nat.eqb_refl. cbn [negb].
+      fold ix. rewrite Hn. cbn [bind]. rewrite narr_lists_map. exact Hf'. }
+    split; [exact H1|]. split; [exact H2|exact H3].
+  Qed.
 End Fancy.
 
-(* ---- outside the clauses the statements are false of the code *)
-(* D22: the empty key takes the _fancy_getitem branch *)
-Theorem dok_getitem_empty_key_refuted_proof :
-  exists sh (items : list (idx * Z)) fill,
-    dok_ok Z sh items /\ shape_okb sh = true /\ (exists sh' g, np_index sh [] = Ok (sh', g))
-    /\ dok_getitem Z Z.eqb Z.add (fun _ => 0%nat) sh items fill [] = Raise NotImplementedError.
+(* ---- what is still refused *)
+(* a non-empty key made of index sequences, but not one per axis, raises NotImplementedError
+   ("Index sequences for all N array dimensions needed!") where NumPy (and COO) index the leading axes *)
+Theorem dok_partial_array_key_refuted_proof :
+  exists sh (items : list (idx * Z)) fill ix,
+    dok_ok Z sh items /\ shape_okb sh = true /\ one_array ix = true /\ d29_clause sh ix = true
+    /\ (exists g, np_index sh ix = Ok ([1; 3], g))
+    /\ dok_getitem Z Z.eqb Z.add (fun _ => 0%nat) sh items fill ix = Raise NotImplementedError.
 Proof.
-  exists [2], [([1], 5)], 0. split.
-  - split; [repeat constructor; simpl; tauto|]. split; [repeat constructor; simpl; lia|left; discriminate].
-  - split; [reflexivity|]. split; [eexists; eexists; vm_compute; reflexivity|reflexivity].
-Qed.
-
-(* D24: a key made of index sequences is not wrapped or bounds-checked (x[[-1]] reads nothing) *)
-Theorem dok_fancy_refuted_proof :
-  exists sh (items : list (idx * Z)) fill (ls : list (list Z)),
-    dok_ok Z sh items /\ shape_okb sh = true
-    /\ match np_index sh (map IArr ls), dok_getitem Z Z.eqb Z.add (fun _ => 0%nat) sh items fill (map IArr ls) with
-       | Ok (sh', g), Ok (DArr sh'' it' f') =>
-         sh'' = sh' /\ den (dok_as_coo sh'' it' f') [0] <> den (dok_as_coo sh items fill) (g [0])
-       | _, _ => False
-       end.
-Proof.
-  exists [3], [([2], 5)], 0, [[-1]]. split.
-  - split; [repeat constructor; simpl; tauto|]. split; [repeat constructor; simpl; lia|left; discriminate].
-  - split; [reflexivity|]. vm_compute. split; [reflexivity|discriminate].
+  exists [2; 3], [([1; 2], 5)], 0, [IBArr [false; true]]. split.
+  - split; [repeat constructor; simpl; tauto|]. repeat constructor; simpl; lia.
+  - split; [reflexivity|]. split; [reflexivity|]. split; [reflexivity|]. split; [eexists; vm_compute; reflexivity|reflexivity].
 Qed.
 
 Example dok_getitem_nonvacuous :
   let sh := [2; 3] in let items := [([0; 1], 10); ([1; 2], 30)] in
   dok_ok Z sh items /\ coo_ix_ok sh [IInt 1; ISlice None None (Some (-1))]
-  /\ all_arrays_of [IInt 1; ISlice None None (Some (-1))] = None
+  /\ fancy_key [IInt 1; ISlice None None (Some (-1))] = false
   /\ dok_getitem Z Z.eqb Z.add (fun _ => 1%nat) sh items 7 [IInt 1; ISlice None None (Some (-1))] = Ok (DArr [3] [([0], 30)] 7)
-  /\ fancy_ok sh [[1; 0; 1]; [2; 1; 2]] 3
-  /\ dok_getitem Z Z.eqb Z.add (fun _ => 1%nat) sh items 7 (map IArr [[1; 0; 1]; [2; 1; 2]])
-     = Ok (DArr [3] [([0], 30); ([1], 10); ([2], 30)] 7).
+  /\ fancy_ok sh [[1; -2; -1]; [2; 1; -1]] 3
+  /\ dok_getitem Z Z.eqb Z.add (fun _ => 1%nat) sh items 7 (map IArr [[1; -2; -1]; [2; 1; -1]])
+     = Ok (DArr [3] [([0], 30); ([1], 10); ([2], 30)] 7)
+  /\ dok_ok Z [] [([], 4)] /\ dok_getitem Z Z.eqb Z.add (fun _ => 1%nat) [] [([], 4)] 3 [] = Ok (DScalar 4)
+  /\ dok_getitem Z Z.eqb Z.add (fun _ => 1%nat) sh items 7 [] = Ok (DArr sh items 7).
 Proof.
   cbv zeta. split.
-  - split; [repeat constructor; simpl; intuition discriminate|]. split; [repeat constructor; simpl; lia|left; discriminate].
-  - split; [left; reflexivity|]. split; [reflexivity|]. split; [reflexivity|]. split; [|reflexivity].
-    split; [discriminate|]. split.
-    + simpl. repeat split; intros; simpl in *; lia.
-    + intros l [<-|[<-|[]]]; reflexivity.
+  - split; [repeat constructor; simpl; intuition discriminate|]. repeat constructor; simpl; lia.
+  - split; [left; reflexivity|]. split; [reflexivity|]. split; [reflexivity|]. split.
+    + split; [discriminate|]. split.
+      * simpl. repeat split; intros; simpl in *; lia.
+      * intros l [<-|[<-|[]]]; reflexivity.
+    + split; [reflexivity|]. split; [split; repeat constructor; simpl; tauto|]. split; reflexivity.
 Qed.
